@@ -22,9 +22,10 @@ type concCfg struct {
 	Users      bool       `json:"users,omitempty"`
 	SharedH    bool       `json:"shared_handle,omitempty"`
 	TempDomain int        `json:"temp_domain,omitempty"`
-	Windows    bool       `json:"windows_typed,omitempty"` // the instance emulates Windows (builds with avfs_setostype only)
-	Focus      int        `json:"focus,omitempty"`         // 0: whole path pool; 1-3: one directory and its entries only
-	PreOpen    []string   `json:"pre_open,omitempty"`      // per client: path held open on handle 0 when the concurrent phase starts ("" = none)
+	Windows    bool       `json:"windows_typed,omitempty"`   // the instance emulates Windows (builds with avfs_setostype only)
+	Focus      int        `json:"focus,omitempty"`           // 0: whole path pool; 1-3: one directory and its entries only
+	PreOpen    []string   `json:"pre_open,omitempty"`        // per client: path held open on handle 0 when the concurrent phase starts ("" = none)
+	PreAppend  bool       `json:"pre_open_append,omitempty"` // files are pre-opened with O_APPEND
 	Strategy   int        `json:"strategy"`
 	PreemptPM  int        `json:"preempt_permille,omitempty"`
 	Pair       bool       `json:"pair_mode,omitempty"` // two clients, one or two calls each on one directory, handles pre-opened
@@ -127,6 +128,10 @@ func buildWorld(cfg *concCfg, nclients int) *world {
 		if i < len(cfg.PreOpen) && cfg.PreOpen[i] != "" {
 			// a handle opened before the concurrent phase (directories read-only, files read-write).
 			flag := os.O_RDWR
+			if cfg.PreAppend {
+				flag |= os.O_APPEND
+			}
+
 			if info, err := v.Stat(cfg.PreOpen[i]); err == nil && info.IsDir() {
 				flag = os.O_RDONLY
 			}
@@ -387,6 +392,8 @@ func genConc(t *sim.Tape, fsKinds []string, maxClients, maxOps int, adversarial 
 				cfg.PreOpen[ci] = pool[t.Int(len(pool))]
 			}
 		}
+
+		cfg.PreAppend = t.Chance(400)
 	}
 
 	cfg.Progs = make([][]fsx.Op, n)
